@@ -3086,4 +3086,4 @@ impl<const RICE_MAX: u32, I: SignedInteger> ToBitStream for ResidualPartition<RI
 // verification hook: inert unless built by `cargo kani` (cfg(kani)); see /verif/DESIGN.md
 #[cfg(kani)]
 #[path = "/verif/harness/stream.rs"]
-mod verif_k;
+pub(crate) mod verif_k;
